@@ -92,7 +92,7 @@ def generate(job):
             s = gen_struct(rs)
         spec["struct"] = s
         for _ in range(rs.randint(3, 8)):
-            k = rs.choice(["split_merge", "split_merge", "batch_call", "batch_call_scalar", "batch_sum", "mask", "index", "replace", "strip", "merge_two"])
+            k = rs.choice(["split_merge", "split_merge", "split_merge_lastaxis", "batch_call", "batch_call_scalar", "batch_sum", "mask", "index", "replace", "strip", "merge_two"])
             spec["ops"].append({"k": k, "b": batch(), "mseed": rs.randrange(1 << 30)})
     elif kind == "lazy":
         spec["heavy"] = rs.chance(0.6)
@@ -198,6 +198,26 @@ def run_struct(spec, log):
     for i, op in enumerate(spec["ops"]):
         k, b = op["k"], op["b"]
         log.count("op." + k)
+        try:
+            compared += struct_op(np, tf, D, log, data, ref, N, i, op)
+        except Failure:
+            raise
+        except Exception as e:
+            import traceback
+
+            tb = traceback.extract_tb(e.__traceback__)
+            if "/verif/" in tb[-1].filename:
+                raise
+            log.fail("raised", "%s|raised|%s" % (k, type(e).__name__), "%s (batch=%d) raised %s: %s" % (k, b, type(e).__name__, str(e)[:200]), step=i)
+            raise Failure()
+        log.state(k, b)
+    return compared
+
+
+def struct_op(np, tf, D, log, data, ref, N, i, op):
+    compared = 0
+    k, b = op["k"], op["b"]
+    if True:
         if k == "split_merge":
             parts = list(D.data_split(data, b))
             want_n = (N + b - 1) // b
@@ -224,6 +244,19 @@ def run_struct(spec, log):
             got = np.array(D.batch_call(f, data, batch=b))
             if got.shape != whole.shape or not np.allclose(got, whole, rtol=1e-12, atol=1e-12):
                 log.fail("batchwise-equals-whole", "batch_call|batchwise-equals-whole", "batch_call(f, batch=%d) differs from f(whole sample) (shapes %s vs %s)" % (b, got.shape, whole.shape), step=i)
+                raise Failure()
+            compared += 1
+        elif k == "split_merge_lastaxis":
+            # the same structure with the event axis LAST (axis=-1), as histogram/binning code stores it
+            tdata = D.data_map(data, lambda v: np.moveaxis(np.array(v), 0, -1))
+            parts = list(D.data_split(tdata, b, axis=-1))
+            if len(parts) != (N + b - 1) // b:
+                log.fail("batch-count", "data_split(axis=-1)|batch-count", "data_split(axis=-1, N=%d, batch=%d) gave %d batches" % (N, b, len(parts)), step=i)
+                raise Failure()
+            merged = D.data_merge(*parts, axis=-1)
+            err = same_struct(np, tdata, merged)
+            if err:
+                log.fail("split-merge-identity", "data_split+data_merge(axis=-1)|identity", "splitting along the last axis in batches of %d and merging along it does not reproduce the data: %s" % (b, err), step=i)
                 raise Failure()
             compared += 1
         elif k == "batch_call_scalar":
@@ -289,7 +322,6 @@ def run_struct(spec, log):
                 log.fail("merge", "data_merge|concatenates", "data_merge(d, d) is not the row-wise concatenation", step=i)
                 raise Failure()
             compared += 1
-        log.state(k, b)
     return compared
 
 
